@@ -31,7 +31,9 @@ def rule_G1(ctx):
         cats[frozenset(prog.fold_name("statuses", name))] = name
     for short in ("conducting", "machines"):
         m = prog.module(short)
-        for f in list(m.functions.values()) + [x for c in m.classes.values() for x in c.methods.values()]:
+        for f in [x for x in list(m.functions.values()) + [
+                y for c in m.classes.values() for y in c.methods.values()]
+                  if not prog.is_dead_helper(x)]:
             for n in ast.walk(f.node):
                 if not (isinstance(n, ast.Compare) and len(n.ops) == 1):
                     continue
@@ -209,4 +211,209 @@ def rule_M1(ctx):
                     "%s reorders a context index list in place" % e.op, line=e.node.lineno))
             else:
                 res.holds(inst)
+    return res
+
+
+# ====================================================================== G2
+WS_PREDICATES = ("has_active_tasks", "has_pausing_tasks", "has_paused_tasks",
+                 "has_canceling_tasks", "has_canceled_tasks")
+
+
+def rule_G2(ctx):
+    """Sibling agreement of the WorkflowState status predicates: every has_<status>_tasks
+    property is 'some task's *latest* record has a status in S', i.e. it is computed through
+    get_tasks_by_status (which keeps the last occurrence per task and route).  A sibling that
+    scans the raw sequence counts records that a retry, a cycle or a rerun has superseded - the
+    workflow machine then sees cancellations / pauses that no longer exist."""
+    from sa.tables import Atomizer
+    res = RuleResult("G2", "every has_<status>_tasks predicate of WorkflowState is computed from "
+                           "the latest record per task (get_tasks_by_status), like its siblings")
+    prog = ctx.prog
+    ws = prog.cls("conducting.WorkflowState")
+    mf = prog.function("machines.WorkflowStateMachine.add_context_to_workflow_event")
+    az = Atomizer(ctx.facts, mf, "workflow_state", None)
+    found = 0
+    for name in WS_PREDICATES:
+        fi = prog.lookup_method(ws, name)
+        if fi is None:
+            continue
+        found += 1
+        atom = az._ws_property(name)
+        inst = (fi.qualname,)
+        if atom[0] == "task_exists":
+            res.holds(inst, "status in %s of the latest records" % sorted(atom[1]))
+        else:
+            res.violated(inst, Finding(
+                "G2", fi.file, fi.qualname, "shape of %s" % name,
+                "%s is not computed as 'get_tasks_by_status(S) is non-empty' like its sibling "
+                "predicates: records superseded by a retry, a cycle iteration or a rerun are "
+                "counted (or the status set cannot be determined)" % name, line=fi.node.lineno))
+    gts = prog.lookup_method(ws, "get_tasks_by_status")
+    if gts is None or found < 4:
+        raise AnalysisError("WorkflowState status predicates vanished")
+    # get_tasks_by_status itself keeps only the last occurrence by default
+    dflt = None
+    a = gts.node.args
+    for p, d in zip(a.args[len(a.args) - len(a.defaults):], a.defaults):
+        if p.arg == "last_occurrence":
+            dflt = d
+    if isinstance(dflt, ast.Constant) and dflt.value is True:
+        res.holds((gts.qualname, "default"), "last_occurrence defaults to True")
+    else:
+        res.violated((gts.qualname, "default"), Finding(
+            "G2", gts.file, gts.qualname, "default of last_occurrence",
+            "get_tasks_by_status no longer restricts itself to the latest record per task by "
+            "default", line=gts.node.lineno))
+    return res
+
+
+# ====================================================================== G3
+def _key_read(e, key):
+    return isinstance(e, ast.Subscript) and isinstance(e.slice, ast.Constant) and \
+        e.slice.value == key and isinstance(e.value, ast.Name)
+
+
+def rule_G3(ctx):
+    """A record / staged entry is identified by the pair (id, route).  Wherever the engine reads
+    an 'id' and a 'route' together - the two sides of one conjunction, adjacent call arguments,
+    adjacent tuple elements, a task_id=/route= keyword pair - both come from the same object.
+    Reading the id of one record and the route of another compares or addresses an identity
+    that no record has."""
+    res = RuleResult("G3", "an (id, route) pair is always read from one and the same entry")
+    prog = ctx.prog
+    n = 0
+    for f in prog.all_functions():
+        if f.module.short not in ("conducting", "machines"):
+            continue
+        for node in ast.walk(f.node):
+            pairs = []
+            if isinstance(node, ast.BoolOp) and isinstance(node.op, ast.And):
+                ids = [c for v in node.values for c in ast.walk(v) if _key_read(c, "id")
+                       and isinstance(getattr(c, "_parent", None), ast.Compare)]
+                routes = [c for v in node.values for c in ast.walk(v) if _key_read(c, "route")
+                          and isinstance(getattr(c, "_parent", None), ast.Compare)]
+                if len(ids) == 1 and len(routes) == 1:
+                    pairs.append((ids[0], routes[0]))
+            seqs = []
+            if isinstance(node, ast.Call):
+                seqs.append(node.args)
+                kw = {k.arg: k.value for k in node.keywords if k.arg}
+                ik = kw.get("task_id", kw.get("id"))
+                rk = kw.get("route", kw.get("task_route"))
+                if ik is not None and rk is not None and _key_read(ik, "id") and _key_read(
+                        rk, "route"):
+                    pairs.append((ik, rk))
+            elif isinstance(node, (ast.Tuple, ast.List)):
+                seqs.append(node.elts)
+            for args in seqs:
+                for a, b in zip(args, args[1:]):
+                    if _key_read(a, "id") and _key_read(b, "route"):
+                        pairs.append((a, b))
+            for a, b in pairs:
+                n += 1
+                stmt = node
+                while not isinstance(stmt, ast.stmt):
+                    stmt = stmt._parent
+                inst = (f.qualname, norm_src(node)[:120], n)
+                if a.value.id == b.value.id:
+                    res.holds(inst)
+                else:
+                    res.violated(inst, Finding(
+                        "G3", f.file, f.qualname, "mixed identity in " + norm_src(node)[:160],
+                        "the id is read from %s but the route from %s: the pair identifies no "
+                        "single record (every other site reads both from one entry)"
+                        % (a.value.id, b.value.id), line=node.lineno))
+    if n < 8:
+        raise AnalysisError("fewer than 8 (id, route) pairs found: the rule no longer sees the "
+                            "identity idiom")
+    return res
+
+
+# ====================================================================== S1c
+RESTORERS = ("conducting.WorkflowState.deserialize", "conducting.WorkflowConductor.deserialize",
+             "graphing.WorkflowGraph.deserialize")
+# keys of the persisted form whose values are strings (status names, catalog / version ids)
+SCALAR_KEYS = ("status", "catalog", "version")
+
+
+def rule_S1c(ctx):
+    """Restoration copies what it is given: in the deserialize() of the state, the conductor and
+    the graph every read of the persisted document is wrapped in a deep copy, is handed to
+    another restorer of this list (or to the spec's, whose definition data is immutable), or
+    reads a string-valued key.  Anything else keeps nested lists / dicts of the caller's
+    document alive inside the restored object: editing the document afterwards (or restoring
+    it twice) changes a conductor that is already running."""
+    res = RuleResult("S1c", "deserialize() of state, conductor and graph deep-copies every part "
+                            "of the persisted document it keeps")
+    prog = ctx.prog
+    for q in RESTORERS:
+        f = prog.function(q)
+        params = [p for p in f.params if p not in ("cls", "self")]
+        if not params:
+            raise AnalysisError("%s has no data parameter" % q)
+        data = params[0]
+        if not any(isinstance(n, ast.Name) and n.id == data for n in ast.walk(f.node)):
+            raise AnalysisError("%s never reads its data parameter" % q)
+        work, seen_names = [(data, 0)], set()
+        while work:
+            name, depth = work.pop()
+            if name in seen_names:
+                continue
+            seen_names.add(name)
+            uses = [n for n in ast.walk(f.node) if isinstance(n, ast.Name) and n.id == name
+                    and isinstance(n.ctx, ast.Load)]
+            for u in uses:
+                # maximal access expression  data[...][...] / data.get(...)
+                top = u
+                keys = []
+                while True:
+                    par = getattr(top, "_parent", None)
+                    if isinstance(par, ast.Subscript) and par.value is top:
+                        if isinstance(par.slice, ast.Constant):
+                            keys.append(par.slice.value)
+                        top = par
+                    elif isinstance(par, ast.Attribute) and par.value is top and par.attr == "get" \
+                            and isinstance(getattr(par, "_parent", None), ast.Call) \
+                            and par._parent.func is par:
+                        call = par._parent
+                        if call.args and isinstance(call.args[0], ast.Constant):
+                            keys.append(call.args[0].value)
+                        top = call
+                    else:
+                        break
+                inst = (q, norm_src(top))
+                ok = None
+                anc = getattr(top, "_parent", None)
+                hops = 0
+                while anc is not None and not isinstance(anc, ast.stmt) and hops < 6:
+                    if isinstance(anc, ast.Call):
+                        cn = callee_name(anc)
+                        if cn == "deepcopy":
+                            ok = "deep copy"
+                            break
+                        if cn == "deserialize":
+                            ok = "delegated to %s" % unparse(anc.func)
+                            break
+                    anc = getattr(anc, "_parent", None)
+                    hops += 1
+                if ok is None and keys and keys[-1] in SCALAR_KEYS:
+                    ok = "string-valued key %r" % keys[-1]
+                if ok is None and isinstance(getattr(top, "_parent", None), ast.Compare):
+                    ok = "compared only"
+                par = getattr(top, "_parent", None)
+                if ok is None and depth < 3 and isinstance(par, ast.Assign) and par.value is top \
+                        and len(par.targets) == 1 and isinstance(par.targets[0], ast.Name):
+                    # a local alias of a part of the document: judged by its own uses
+                    work.append((par.targets[0].id, depth + 1))
+                    ok = "bound to local %s" % par.targets[0].id
+                if ok:
+                    res.holds(inst, ok)
+                else:
+                    res.violated(inst, Finding(
+                        "S1c", f.file, f.qualname, "uncopied use of the persisted document: "
+                        + norm_src(top),
+                        "%s keeps %s from the caller's document without a deep copy: nested "
+                        "containers stay shared between the restored object and the document "
+                        "(and every other object restored from it)" % (f.name, unparse(top)),
+                        line=u.lineno))
     return res
